@@ -11,6 +11,7 @@ def norm(line):
 
 def run_stream(ck, coins, stream, release=False, check_ref=True, label=''):
     """hook vs model vs python reference on every (script, coin); returns number of PANIC answers"""
+    if not run.hooks_ok(ck): return 0
     reqs = []
     for k, (tag, s) in enumerate(stream):
         # every script on one coin (rotating); templates, slot forms and no-op insertions on every coin (the verdict depends on the coin only through the version byte)
